@@ -194,6 +194,10 @@ def effects(F, b, depth=0, subst=None):
                 continue
             out.append(Eff('callself', w.bb, name=c.name, args=tuple(w.args[1:]), span=w.span))
             continue
+        if c.name == 'fill' and a0[0] == 'field' and a0[2] in LINK_FIELDS and node_key(a0[1]) is not None and len(w.args) == 2:
+            # `node.children.fill(v)`: every slot := v, like the loop `for c in &mut node.children { *c = v }`
+            out.append(Eff('setall', w.bb, key=node_key(a0[1]), field=a0[2], value=w.args[1], span=w.span, by='fill'))
+            continue
         if c.name == 'replace' and w.args[0][0] == 'field' and w.args[0][2] == 'value' and node_key(w.args[0][1]) is not None:
             out.append(Eff('setvalue', w.bb, key=node_key(w.args[0][1]), span=w.span))
             continue
@@ -552,7 +556,10 @@ def match_contract(ctx, F, b, R, effs, link, calls):
             h = hdrs[0]
             inner = [x for x in cfg.loop_headers() if isinstance(x, int) and setall[0].bb in cfg.loop_of(x) and x != h]
             post_leaf = leaf[0].bb not in cfg.loop_of(h) and cfg.postdominates(leaf[0].bb, h)
-            post_slots = bool(inner) and inner[0] not in cfg.loop_of(h) and cfg.postdominates(inner[0], h)
+            if getattr(setall[0], 'by', None) == 'fill':
+                post_slots = setall[0].bb not in cfg.loop_of(h) and cfg.postdominates(setall[0].bb, h)
+            else:
+                post_slots = bool(inner) and inner[0] not in cfg.loop_of(h) and cfg.postdominates(inner[0], h)
             if not (post_leaf and post_slots):
                 ctx.bad('C12.R2', site + '#CLEAR-DESC:repair-unconditional',
                         'the repair of the subtree root (isleaf := true, slots := None) is skipped on some path after descendants were removed', leaf[0].span)
